@@ -6,7 +6,7 @@ TR = ['C08_NoPanic', 'C08_Levels', 'C08_Account', 'C08_ReqNoPanic', 'C08_ReqLeve
 
 
 def run(tier):
-    f = vise.Family(PID, tier, MC, TR, ['nav', 'flags', 'scope', 'ends', 'lang', 'reenter', 'capacity'] if tier == 'thorough' else ['nav', 'ends', 'reenter', 'capacity'], modes=('L', 'P'), matcher=vise.known_matcher(PID))
+    f = vise.Family(PID, tier, MC, TR, ['nav', 'flags', 'scope', 'ends', 'lang', 'reenter', 'capacity', 'first', 'rempty'] if tier == 'thorough' else ['nav', 'ends', 'reenter', 'capacity', 'first', 'rempty'], modes=('L', 'P'), matcher=vise.known_matcher(PID))
     f.out.assumptions = ['well-formedness of generated programs is by construction of the generator (targets exist, catch node, flags in range, no self-move, '
                          'moves before a HALT only go forward); external results may exceed their declared size or fail',
                          'every request runs under recover() and a 20 s watchdog (a request that does not return counts as a crash)',
